@@ -195,7 +195,7 @@ Print Assumptions C04_conn_size_exact.
 (* [frame_fits]: what follows the size prefix is shorter than 2^31 bytes *)
 Theorem C04_conn_frame_fits_def : forall client r,
   ConnWritersSize.frame_fits client r = (10 + lenZ client + lenZ (ConnWriters.creq_body r) <? ZM31)%Z.
-Proof. reflexivity. Qed.
+Proof. exact ConnWritersSize.frame_fits_def. Qed.
 Print Assumptions C04_conn_frame_fits_def.
 
 (* the size fields inside a produce request: the record set is its int32 size followed by that
